@@ -253,7 +253,9 @@ def view_of(ps, v):
         hv = ps.heap[v.loc]
         return ObjView(ps, hv) if isinstance(hv, Obj) else hv
     if isinstance(v, InnerRef): return ps.heap[v.loc].row(v.idx)
-    if isinstance(v, Tup): return tuple(view_of(ps, x) for x in v.items)
+    if isinstance(v, Tup):
+        if len(v.items) == 1 and isinstance(v.items[0], dict): return {k: view_of(ps, x) for k, x in v.items[0].items()}      # dict display
+        return tuple(view_of(ps, x) for x in v.items)
     return v
 
 
@@ -660,8 +662,13 @@ class Exec:
         if name == 'array' and len(args) == 1 and not e.keywords:
             v = self.deref(ps, args[0])
             if isinstance(v, SSeq): return self.alloc(ps, SSeq(v.len, v.arr))      # a new 1-D array with the same elements
-        if name == 'zeros' and len(args) == 1 and not isinstance(args[0], (Tup, Ref)):
-            return self.alloc(ps, SSeq(zint(args[0]), z3.K(INT, z3.IntVal(0))))
+        if name in ('zeros', 'ones') and len(args) == 1 and not isinstance(args[0], (Tup, Ref)):
+            kw = {k.arg: ast.unparse(k.value) for k in e.keywords}
+            one = 1 if name == 'ones' else 0
+            if kw.get('dtype') == 'int' or (name == 'zeros' and not getattr(self.c, 'float_arrays', False)):
+                return self.alloc(ps, SSeq(zint(args[0]), z3.K(INT, z3.IntVal(one))))
+            # numpy's default dtype is float: a real-valued array (contracts that store reals declare float_arrays = True)
+            return self.alloc(ps, SSeq(zint(args[0]), z3.K(INT, z3.RealVal(one))))
         raise Undecided('np.%s at line %d' % (name, e.lineno))
 
     def method_call(self, base, meth, args, e, ps, exits):
@@ -763,6 +770,14 @@ class Exec:
             ps.pc.append(S.forall_int(lambda j: z3.Implies(z3.And(j >= 0, j < n), z3.Select(arr, j) == z3.substitute(term, (k, j))), 'cj'))
             return self.alloc(ps, SSeq(n, arr))
         raise Undecided('comprehension element kind at line %d' % e.lineno)
+
+    def ev_Dict(self, e, ps, exits):
+        # a dict display with literal string keys (a record of results): modelled as a mapping name -> value, only passed around / returned
+        out = {}
+        for k, v in zip(e.keys, e.values):
+            if not (isinstance(k, ast.Constant) and isinstance(k.value, str)): raise Undecided('dict display with a non-literal key at line %d' % e.lineno)
+            out[k.value] = self.ev(v, ps, exits)
+        return Tup([out])
 
     def ev_List(self, e, ps, exits):
         if not e.elts: return self.alloc(ps, SSeq(z3.IntVal(0), z3.K(INT, z3.IntVal(0))))
